@@ -25,13 +25,13 @@ theorem exec_local {cfg : Cfg} {t : Nat} {sh sh' : Shared} {l l' : Local} {g : G
     ((l.dirty = false → l.buffer = []) → (l'.dirty = false → l'.buffer = [])) ∧
     ((l.recDone = true → Lock.console ∈ l.held) → (l'.recDone = true → Lock.console ∈ l'.held)) := by
   have hg' : guardOn cfg l.abs.depth l.abs.hooked g = true := hg
-  have exitSim : ∀ a : Abs, (a.held == [Lock.live] && a.depth == 0 && !a.recDone && !a.dirty) = true →
+  have exitSim : ∀ a : Abs, (!a.xread && a.held == [Lock.live] && a.depth == 0 && !a.recDone && !a.dirty) = true →
       Sim cfg [ga (.rel .live)] a = true := by
     intro a h
-    obtain ⟨held, d, hk, rdn, dty⟩ := a
+    obtain ⟨held, d, hk, rdn, dty, xr⟩ := a
     simp only [Bool.and_eq_true, beq_iff_eq, Bool.not_eq_true'] at h
-    obtain ⟨⟨⟨h1, h2⟩, h3⟩, h4⟩ := h
-    subst h1 h2 h3 h4
+    obtain ⟨⟨⟨⟨h0, h1⟩, h2⟩, h3⟩, h4⟩ := h
+    subst h0 h1 h2 h3 h4
     simp [Sim, ga, guardOn, absAct, Abs.final]
   by_cases hsp : act.special = true
   · -- the three branching actions
@@ -42,7 +42,7 @@ theorem exec_local {cfg : Cfg} {t : Nat} {sh sh' : Shared} {l l' : Local} {g : G
       simp only [Option.some.injEq, Prod.mk.injEq] at he
       obtain ⟨_, rfl⟩ := he
       refine ⟨?_, rfl, fun h => h, fun h => h⟩
-      show Sim cfg r ⟨l.held, l.depth, decide (0 < sh.hooks), l.recDone, l.dirty⟩ = true
+      show Sim cfg r ⟨l.held, l.depth, decide (0 < sh.hooks), l.recDone, l.dirty, l.xread⟩ = true
       cases decide (0 < sh.hooks)
       · exact hs.2
       · exact hs.1
@@ -89,7 +89,7 @@ theorem exec_local {cfg : Cfg} {t : Nat} {sh sh' : Shared} {l l' : Local} {g : G
       split at ha
       · rename_i hc
         have hc1 : lk ∈ l.held := hc.1
-        have hc2 : lk = .console → l.recDone = false := hc.2
+        have hc2 : lk = .console → l.recDone = false := hc.2.1
         simp only [Option.some.injEq] at ha
         subst ha
         simp only [hc1, if_true, Option.some.injEq, Prod.mk.injEq] at he
@@ -225,9 +225,9 @@ theorem inv_step {cfg : Cfg} {s s' : State} {t : Nat} (inv : Inv cfg s) (h : ste
       have hsim := inv.sim t
       rw [hc] at hsim
       simp only [Sim, Abs.final, Local.abs, Bool.and_eq_true, List.isEmpty_iff, beq_iff_eq, Bool.not_eq_true'] at hsim
-      obtain ⟨⟨⟨h1, h2⟩, h3⟩, h4⟩ := hsim
+      obtain ⟨⟨⟨⟨h0, h1⟩, h2⟩, h3⟩, h4⟩ := hsim
       refine ⟨fun u => ?_, fun lk u => ?_, fun u => ?_, fun u => ?_, fun u => ?_⟩ <;> by_cases hu : u = t
-      · subst hu; simp only [upd_same, Local.abs, h1, h2, h3, h4]; exact code_ok cfg op _
+      · subst hu; simp only [upd_same, Local.abs, h0, h1, h2, h3, h4]; exact code_ok cfg op _
       · simp only [upd_other _ _ hu]; exact inv.sim u
       · subst hu; simp only [upd_same]; exact inv.own lk u
       · simp only [upd_other _ _ hu]; exact inv.own lk u
